@@ -104,7 +104,7 @@ def histories(ck, binp):
 
 
 def run(ck):
-    ck.tlc_model("Replicate", "Replicate_model.cfg", timeout=600, workers=4)
+    ck.tlc_model("Replicate", "Replicate_model.cfg" if ck.tier == "thorough" else "Replicate_quick.cfg", timeout=900, workers=4)
     binp = ck.gobuild("rpc")
     recs_path = os.path.join(ck.tmp, "replicate.ndjson")
     if ck.replay and "hist" in json.load(open(ck.replay))["replay"]:
